@@ -211,7 +211,8 @@ class C09(EngineBase):
         if k0[0] != "ok":
             if ops.is_inplace(step):
                 for h in st.heaps:
-                    h.pop(step["in"][0], None)
+                    for tn in ops.inplace_targets(step):
+                        h.pop(tn, None)
             return
         if op in INEXACT:
             # factorisations of B and of -B agree only to rounding; carrying
